@@ -27,7 +27,7 @@ ASSUMPTIONS = [
     "no nested dispatch: a callback does not itself call loop_read()",
     "bytes.decode('utf-8') is a correct UTF-8 decoder; the model takes 'topic is decodable' as an input computed with it",
     "delivered topic names are valid topic names ([MQTT-3.3.2-2]: no wildcard characters) - a PUBLISH whose topic has a level "
-    "'+' runs a matching callback twice (theorem C15_wildcard_topic_name_runs_twice; reported as a note, see corpus/C15/REPORT.md)",
+    "'+' runs a matching callback twice (theorem C15_wildcard_topic_name_runs_twice; reported as a note, see corpus/C15/wildcard_topic_name_double_dispatch.json)",
     "the trie part rests on C11 (same model, harness/c11.py)",
 ]
 CAP = 25
@@ -194,7 +194,7 @@ def judge(items, dis, vio, st):
         probs.append(pb)
         ninner.append(ni)
     verdicts = model.run_batch(M.TAG, M.E_C15_OK, [enc_log(lg) for lg in logs])
-    for h, lg, pb, ni, m, v in zip(hs, logs, probs, ninner, mod, verdicts):
+    for h, (_, proto), lg, pb, ni, m, v in zip(hs, items, logs, probs, ninner, mod, verdicts):
         st["histories"] += 1
         dels = [e for e in lg if e[0] == "deliver"]
         st["deliveries"] += len(dels)
@@ -210,7 +210,7 @@ def judge(items, dis, vio, st):
         if valid and m[-1:] != [1] and len(dis) < CAP:
             dis.append({"case": {"kind": "history", "history": show(h)}, "what": "the model's own log is rejected by c15_ok (contradicts C15_all_histories)"})
         if valid and (v != [1] or pb) and len(vio) < CAP:
-            vio.append({"case": {"kind": "history", "history": show(h),
+            vio.append({"case": {"kind": "history", "history": show(h), "proto": int(proto),
                                  "history_raw": [[list(x) if isinstance(x, bytes) else x for x in o] for o in h]},
                         "what": ("handlers run differ from the registered callbacks whose filter matches (extracted checker c15_ok rejects the log); "
                                  if v != [1] else "") + "; ".join(pb) + f" impl log: {show(lg)}",
@@ -356,9 +356,11 @@ def shrink(v):
     if not raw:
         return v
 
+    proto = v["case"].get("proto", int(mqtt.MQTTv311))
+
     def fails(hh):
         try:
-            lg, pb, _ = run_history(hh)
+            lg, pb, _ = run_history(hh, proto)
         except Exception:
             return True
         return bool(pb) or model.run_one(M.TAG, M.E_C15_OK, enc_log(lg)) != [1]
@@ -372,12 +374,32 @@ def shrink(v):
             h = cand
         else:
             i += 1
+    # then the in-callback scripts: drop whole scripts, then single changes
+    for i, o in enumerate(h):
+        if o[0] != "deliver":
+            continue
+        cand = h[:i] + [o[:3] + ([],) + o[4:]] + h[i + 1:]
+        if o[3] and fails(cand):
+            h = cand
+            continue
+        inner = [list(lst) for lst in o[3]]
+        for j in range(len(inner)):
+            k = 0
+            while k < len(inner[j]):
+                trial = [lst[:] for lst in inner]
+                del trial[j][k]
+                cand = h[:i] + [o[:3] + (trial,) + o[4:]] + h[i + 1:]
+                if fails(cand):
+                    inner, h = trial, cand
+                else:
+                    k += 1
     try:
-        lg, pb, _ = run_history(h)
+        lg, pb, _ = run_history(h, proto)
     except Exception as e:
         lg, pb = [], [f"the client raised {type(e).__name__}: {e}"]
     v = dict(v)
-    v["case"] = {"kind": "history", "history": show(h), "history_raw": [[list(x) if isinstance(x, bytes) else x for x in o] for o in h]}
+    v["case"] = {"kind": "history", "history": show(h), "proto": proto, "history_raw": [[list(x) if isinstance(x, bytes) else x for x in o] for o in h]}
+    v["signature"] = "c15-dispatch"
     v["what"] = "minimised: " + "; ".join(pb) + f" impl log: {show(lg)} (checker c15_ok rejects it)"
     return v
 
@@ -396,6 +418,7 @@ def _detuple(h):
 
 def run(ctx, out):
     out.nontrivial = M.Distinct(out.nontrivial)
+    M.run_corpus(out, "C15", replay)
     # the worked example of Props/C15.v (C15_history_ex) first
     ex = [("onmsg", True), ("add", "a/+", 1), ("add", "a/#", 2), ("add", "#", 3), ("add", "$SYS/#", 4),
           ("deliver", b"a/b", 2, [[("remove", "a/#")], [("add", "a/b", 5)], [("add", "#", 6)], [("add", "zz", 9)]]),
@@ -421,7 +444,7 @@ def run(ctx, out):
     if ranw == [2, 2]:
         out.notes.append("outside the property (topic name with wildcard level, forbidden by MQTT-3.3.2-2): PUBLISH topic 'a/+' "
                          "with filter 'a/+' registered runs the callback twice - theorem C15_wildcard_topic_name_runs_twice; "
-                         "not counted as a violation, see corpus/C15/REPORT.md")
+                         "not counted as a violation, see corpus/C15/wildcard_topic_name_double_dispatch.json")
 
     # (1) exhaustive
     L = 3 if ctx.quick else 4
@@ -453,7 +476,7 @@ def replay(payload):
         return True, {"note": "nothing to replay for this kind"}
     h = normalize(_detuple(raw))
     try:
-        lg, pb, _ = run_history(h)
+        lg, pb, _ = run_history(h, case.get("proto", int(mqtt.MQTTv311)))
     except Exception as e:
         return False, {"history": show(h), "raised": f"{type(e).__name__}: {e}"}
     v = model.run_one(M.TAG, M.E_C15_OK, enc_log(lg))
